@@ -15,7 +15,7 @@ Theorem C18_markers_iff : forall t us f M m,
   first_has (l_decls f) = Some M ->
   (In m (check_markers t us f) <->
    (m = "io" /\ has_io M = false /\ l_has_self f = false /\ has_returns (l_body f) = false) \/
-   (In m (get_markers t us (l_body f)) /\ linter_covers M m = false)).
+   (exists m0, In m0 (get_markers t us (l_body f)) /\ linter_covers M m0 = false /\ m = linter_canon m0)).
 Proof. exact markers_iff. Qed.
 Theorem C18_subclass_aware : forall cs c d ds, In ds cs -> In d ds -> issubclass c d = true -> linter_admits cs c = true.
 Proof. exact subclass_admitted. Qed.
@@ -27,6 +27,10 @@ Theorem C18_markers_monotone : forall t us f M M', incl M M' -> incl (undeclared
 Proof. exact markers_monotone. Qed.
 Theorem C18_implication_aware : forall M M' m, incl M M' -> linter_covers M m = true -> linter_covers M' m = true.
 Proof. exact covers_mono. Qed.
+Theorem C18_alias_markers : forall M,
+  linter_covers M "print" = linter_covers M "stdout" /\ linter_covers M "socket" = linter_covers M "network" /\
+  linter_covers M "input" = linter_covers M "stdin" /\ linter_covers M "nonlocal" = linter_covers M "global".
+Proof. exact alias_markers. Qed.
 Theorem C18_try_body_not_inspected : forall t us b b' hs e f, get_exceptions t us [STry b hs e f] = get_exceptions t us [STry b' hs e f].
 Proof. exact try_body_not_inspected. Qed.
 Theorem C18_try_body_markers_inspected : forall t us b hs e f m, In m (get_markers t us b) -> In m (get_markers t us [STry b hs e f]).
@@ -42,6 +46,7 @@ Theorem C18_caller_charged_stub_entries : forall t f k rs ms,
   get_exceptions t true [SLeaf (LCall f)] = rs /\ get_markers t true [SLeaf (LCall f)] = ms.
 Proof. exact caller_charged_stub_entries. Qed.
 Print Assumptions C18_raises_iff.
+Print Assumptions C18_alias_markers.
 Print Assumptions C18_markers_iff.
 Print Assumptions C18_raises_monotone.
 Print Assumptions C18_markers_monotone.
